@@ -172,7 +172,8 @@ func runC07(c *fw.Ctx, idx int) fw.Result {
 				a = append(a, "-m", spellMeasure(measure, idx)) // raw is the documented default and may be left out
 			}
 			if bigD {
-				a = append(a, "-d", "1000") // every distance is within 1000: same output
+				// every distance is within these: same output
+				a = append(a, "-d", []string{"1000", "1e19", "inf", "1e300", "+Inf", "9223372036854775808"}[fw.Mix(uint64(idx)+17)%6])
 			}
 			if threads != 0 {
 				a = append(a, "-t", fmt.Sprint(threads))
